@@ -412,6 +412,8 @@ class TrigTime:
 
         # "now" in time specifications is fixed at the first evaluation, for the whole wait
         startup_time = None
+        # the trigger time we are waiting for; it stays due if the wait is ended by a notification
+        time_pending = None
         try:
             while True:
                 ret = None
@@ -422,7 +424,17 @@ class TrigTime:
                 if startup_time is None:
                     startup_time = now
                 if time_trigger is not None:
-                    time_next, time_next_adj = await cls.timer_trigger_next(time_trigger, now, startup_time)
+                    if time_pending is not None and time_pending <= now:
+                        #
+                        # a notification arrived just as this trigger time did; computing the next
+                        # one from the current time would skip it
+                        #
+                        time_next = time_next_adj = time_pending
+                    else:
+                        time_next, time_next_adj = await cls.timer_trigger_next(
+                            time_trigger, now, startup_time
+                        )
+                    time_pending = time_next
                     _LOGGER.debug(
                         "trigger %s wait_until time_next = %s, now = %s",
                         ast_ctx.name,
@@ -1156,6 +1168,8 @@ class TrigInfo:
             state_trig_notify_info = [None, None]
             state_false_time = None
             now = startup_time = None
+            # the trigger time we are waiting for; it stays due if the wait is ended by a notification
+            time_pending = None
             check_state_expr_on_start = self.state_check_now or self.state_hold_false is not None
 
             while True:
@@ -1186,9 +1200,17 @@ class TrigInfo:
                     check_state_expr_on_start = False
                 else:
                     if self.time_trigger:
-                        time_next, time_next_adj = await TrigTime.timer_trigger_next(
-                            self.time_trigger, now, startup_time
-                        )
+                        if time_pending is not None and time_pending <= now:
+                            #
+                            # a notification arrived just as this trigger time did; computing the
+                            # next one from the current time would skip it
+                            #
+                            time_next = time_next_adj = time_pending
+                        else:
+                            time_next, time_next_adj = await TrigTime.timer_trigger_next(
+                                self.time_trigger, now, startup_time
+                            )
+                        time_pending = time_next
                         _LOGGER.debug(
                             "trigger %s time_next = %s, now = %s",
                             self.name,
@@ -1220,6 +1242,7 @@ class TrigInfo:
                                     continue
                                 now = time_next
                                 if not state_trig_timeout:
+                                    time_pending = None
                                     notify_type = "time"
                                     notify_info = {
                                         "trigger_type": "time",
